@@ -47,6 +47,8 @@ func runOneExpect(dir string, emitter string, c gen.ExpectCase) (res string) {
 		if x, have := l["json"]; have {
 			js, _ := json.Marshal(x)
 			data = append(data, js...)
+		} else if ms, have := l["pause"]; have {
+			data = append(data, []byte(fmt.Sprintf("#pause %v", ms))...)
 		} else {
 			data = append(data, []byte(l["noise"].(string))...)
 		}
